@@ -632,9 +632,15 @@ class Generator:
                             merged_stub[id(grp[0])] = merge_stub_headers([g.header_tokens for g in grp])
                         for g in grp[1:]:
                             skip.add(id(g))
-            for it in its:
-                if id(it) in skip:
-                    continue
+            live = [it for it in its if id(it) not in skip]
+
+            def same_trait_impl(a, b):
+                # adjacent fns of one trait impl (`impl Ord for T { cmp, max, min, clamp }`) share one impl block
+                return (a is not None and b is not None and a.kind == 'fn' and b.kind == 'fn' and a.impl_header is not None
+                        and a.impl_header == b.impl_header and ' for ' in a.impl_header and not a.is_mp and not b.is_mp)
+            for li, it in enumerate(live):
+                prev_it = live[li - 1] if li > 0 else None
+                next_it = live[li + 1] if li + 1 < len(live) else None
                 own = (it.entry.unit == unit) and not it.assumed
                 if it.kind in ('raw', 'spec', 'struct'):
                     emit(it.full, it)
@@ -645,12 +651,14 @@ class Generator:
                     if id(it) in merged_stub:
                         body = merged_stub[id(it)]
                     if it.impl_header is not None:
-                        emit(it.impl_header + ' {')
-                        if ' for ' in it.impl_header and not it.is_mp:
-                            for ty in self.x.impl_types.get(it.impl_header, []):
-                                emit(ty)
+                        if not same_trait_impl(prev_it, it):
+                            emit(it.impl_header + ' {')
+                            if ' for ' in it.impl_header and not it.is_mp:
+                                for ty in self.x.impl_types.get(it.impl_header, []):
+                                    emit(ty)
                         emit(body, it if own else None)
-                        emit('}')
+                        if not same_trait_impl(it, next_it):
+                            emit('}')
                     else:
                         if depth > 0:
                             # a free fn that is private to its module: the generator emits impl blocks at the crate
